@@ -217,11 +217,12 @@ func ruleR13(c *Ctx, prop string) {
 		return
 	}
 	full := prop == "C12"
+	tables := full || prop == "C11" // C11: Constant's `value` tensor is decoded by the same tables (D1-D3 only)
 	byName := map[string]onnxType{}
 	for _, t := range onnxTypes {
 		byName[t.name] = t
 	}
-	if full {
+	if tables {
 		// D1 dispatch table
 		for _, t := range onnxTypes {
 			key := "R13:D1:" + t.name
@@ -261,7 +262,12 @@ func ruleR13(c *Ctx, prop string) {
 			c.undecided("R13", "R13:floor", "", fmt.Sprintf("only %d raw readers found (floor 10)", len(rs)))
 		}
 		// D4 is judged together with D6 below
-		c.checkD4(rs, di)
+		if full {
+			c.checkD4(rs, di)
+		}
+	}
+	if prop == "C11" {
+		return
 	}
 	// D5: only the supported cases reach tensor construction (a C12 clause; not a crash)
 	if full {
